@@ -344,44 +344,60 @@ fn marginals(run: &Run, n: usize, r: usize) {
     }
 }
 
-/// the same exact position law on data whose elements are all alike except one marked element (a NaN among equal
-/// numbers, a -0.0 among +0.0): every output slot holds the marked element with probability exactly 1/n
-fn marginals_marked(run: &Run, n: usize, r: usize, kind: usize) {
-    let m = n / 2;
-    let data: Vec<f64> = (0..n).map(|i| if i == m { if kind == 0 { f64::NAN } else { -0.0 } } else if kind == 0 { 7.0 } else { 0.0 }).collect();
-    let mark = data[m].to_bits();
-    for k in 0..r {
-        for i in 0..n {
-            run.case();
-            run.tr();
-            let d = data.clone();
-            let f = move || {
-                let out = bootstrap(&d, r);
-                if out[k][i].to_bits() == mark { 1.0 } else { 0.0 }
-            };
-            let decl = Decl { max_words: 0, max_units: 4 * n * r, jb: 1, jw: 1, gu: [1, 1, 1, 1], gw: 1, discrete: true, max_leaves: 2_000_000, max_runs: 50_000_000 };
-            let ex = Explorer::new(&f, decl).explore();
-            if !ex.panics.is_empty() {
-                let (msg, sc) = &ex.panics[0];
-                run.violate("bootstrap/small-exhaustive/panic", || format!("bootstrap(data={:?}, {}) on answers {}: {}", data, r, fmt_ans(sc), msg));
-                continue;
+/// data whose elements are all alike except one marked element (a NaN among equal numbers, a -0.0 among +0.0): every
+/// output slot holds the marked element with probability 1/n. The indicator "slot holds the marked element" is not
+/// monotone in a generator answer, which the exact engine's partition needs, so this is judged on seeded streams
+/// (Bernstein bound per slot, total false-alarm probability 1e-12) - sampled, like the other frequency tests
+fn marked_frequencies(run: &Run) {
+    let ns = [2usize, 3, 4, 5, 8, 17, 64];
+    let cells: f64 = 2.0 * ns.iter().map(|&n| n as f64).sum::<f64>();
+    let l = (2.0 * cells / 1e-12).ln();
+    for kind in 0..2usize {
+        ns.par_iter().for_each(|&n| {
+            let m = n / 2;
+            let data: Vec<f64> = (0..n).map(|i| if i == m { if kind == 0 { f64::NAN } else { -0.0 } } else if kind == 0 { 7.0 } else { 0.0 }).collect();
+            let mark = data[m].to_bits();
+            let (seeds, per) = (40usize, 1500usize);
+            let mut count = vec![0u64; n];
+            let mut total = 0u64;
+            for sd in 0..seeds {
+                alea::set_seed(77 + 2 * sd as u64 + 1000 * n as u64 + kind as u64);
+                script::reset_draws();
+                script::set_draw_limit(Some(1000 * (n * per) as u64 + 100_000));
+                let res = guard(|| bootstrap(&data, per));
+                script::set_draw_limit(None);
+                match res {
+                    Ok(out) if out.len() == per && out.iter().all(|v| v.len() == n) => {
+                        for v in &out {
+                            for (i, e) in v.iter().enumerate() {
+                                if e.to_bits() == mark {
+                                    count[i] += 1;
+                                }
+                            }
+                        }
+                        total += per as u64;
+                    }
+                    Ok(_) => {
+                        run.violate("bootstrap/real-stream/shape", || format!("data {:?}, {} resamples", data, per));
+                        return;
+                    }
+                    Err(p) => {
+                        run.violate(if p.contains("livelock") { "bootstrap/real-stream/does-not-terminate" } else { "bootstrap/real-stream/panic" }, || format!("data {:?}: {}", data, p));
+                        return;
+                    }
+                }
             }
-            run.ok();
-            run.nontrivial(1);
-            if !ex.livelocks.is_empty() || !ex.structure_errors.is_empty() || ex.rejected > 1e-12 || ex.leaves.is_empty() {
-                // a sampler that draws nothing at all has a single leaf and is judged below; anything else outside the
-                // enumeration is left to the frequency test
-                run.skip("draw structure outside exact enumeration: marked-element law left to the frequency test");
-                continue;
+            run.cases(seeds as u64);
+            run.trs(total * n as u64);
+            run.oks(seeds as u64);
+            run.nontrivial(seeds as u64);
+            let p = 1.0 / n as f64;
+            let t = bernstein_t(total as f64, p, l);
+            match count.iter().enumerate().find(|(_, &c)| (c as f64 - total as f64 * p).abs() > t) {
+                Some((i, &c)) => run.violate("bootstrap/position-not-equally-likely/marked-element", || format!("bootstrap(data={:?}): in {} resamples on {} seeded streams slot {} held the marked element (data position {}) {} times, expected {:.1} ± {:.1}; counts per slot {:?}", data, total, seeds, i, m, c, total as f64 * p, t, count)),
+                None => run.regime("marked element: slot frequencies uniform"),
             }
-            let total: f64 = ex.leaves.iter().map(|l| l.mass).sum();
-            let p1: f64 = ex.leaves.iter().filter(|l| l.lo == 1.0 && l.hi == 1.0).map(|l| l.mass).sum::<f64>() / total;
-            if (p1 - 1.0 / n as f64).abs() > 1e-9 {
-                run.violate("bootstrap/position-not-equally-likely/marked-element", || format!("bootstrap(data={:?}, {}): slot {} of resample {} holds the marked element (data position {}) with probability {} (exact enumeration of the generator's answers), expected 1/{}", data, r, i, k, m, p1, n));
-            } else {
-                run.regime("position-law: marked element exactly uniform");
-            }
-        }
+        });
     }
 }
 
@@ -528,14 +544,11 @@ pub fn run(run: &Run) {
     run.bound("exact position law", format!("n = 1..={} (1 resample), n ≤ 3 also 2 resamples", amax));
     (1..=amax).into_par_iter().for_each(|n| {
         marginals(run, n, 1);
-        if n >= 2 {
-            marginals_marked(run, n, 1, 0);
-            marginals_marked(run, n, 1, 1);
-        }
         if n <= 3 {
             marginals(run, n, 2);
         }
     });
+    marked_frequencies(run);
     // ---- bootstrap, deviation-bounded ------------------------------------------------------------
     let nmax = run.tier.pick(40usize, 120usize);
     let n2 = run.tier.pick(12usize, 20usize);
